@@ -28,7 +28,7 @@ CONSTANTS Users,      \* storable user names
           PassMiss,   \* attempt-only passwords
           EmptyPw,    \* the element of Passwords standing for "" ("-" if there is none)
           Algo,       \* configured hash algorithm: "plain" | "md5" | "sha256" | "bcrypt"
-          Shapes,     \* CONNECT shapes \subseteq {"v31","v311","v5","v5am","v5amd"} (am = Authentication Method, d = + Data)
+          Shapes,     \* CONNECT shapes \subseteq {"v31","v311","v5","v5am","v5amd"} (am = Authentication Method, d = + Data, am0 = a zero-length Authentication Method)
           Lns,        \* listeners \subseteq {"tcp","ws"}
           ManNone,    \* manners of an attempt while no victim is connected   \subseteq {"own","own+will","victim","victim+will"}
           ManVictim,  \* manners of an attempt while the victim is connected: client id own / the victim's, with / without
@@ -104,7 +104,7 @@ Presented(pf, pa)   == IF pf THEN Hash(pa) ELSE <<"absent">>
 DontCare(uf, ua, pf) == /\ ~pf /\ EmptyPw \in Passwords
                         /\ Lookup(uf, ua) # None /\ Lookup(uf, ua) = Hash(EmptyPw)
 Result(shape, uf, ua, pf, pa) ==
-    IF "authmethod_rejected" \in Dev /\ shape \in {"v5am", "v5amd"} THEN "reject"
+    IF "authmethod_rejected" \in Dev /\ shape \in {"v5am", "v5amd", "v5am0"} THEN "reject"
     ELSE IF DontCare(uf, ua, pf) THEN "any"
     ELSE IF Lookup(uf, ua) # None /\ Lookup(uf, ua) = Presented(pf, pa) THEN "accept"
     ELSE "reject"
